@@ -220,7 +220,8 @@ int main(int argc, char** argv) {
     if (!stop) st.exhaustive_enum = true;
   } else if (mode == "pbt") {
     bool ok = rc::check(std::string(PROPERTY), [&]() {
-      const std::vector<uint8_t> b = *rc::gen::resize(LMAX, rc::gen::arbitrary<std::vector<uint8_t>>());
+      // length uniform in 0..LMAX; elements are drawn at the nominal size so that all 8 bits are uniform
+      const std::vector<uint8_t> b = *rc::gen::resize(LMAX, rc::gen::container<std::vector<uint8_t>>(rc::gen::resize(rc::kNominalSize, rc::gen::arbitrary<uint8_t>())));
       std::string sig, msg, sample;
       if (guarded(b.data(), b.size(), &sig, &msg, &sample)) {
         st.frozen = true; have_fail = true;
